@@ -16,7 +16,7 @@ META = {'assumptions': ['jsonutils.loads of the token / target / policy files is
 
 SAMPLE_DIR = '/repo/sample_data'
 LEAVES = ['role:admin', 'role:member', 'role:reader', 'role:role1', 'is_admin:True', 'user_id:%(user_id)s', 'project_id:%(project_id)s',
-          'system_scope:all', 'system.all:True', 'system:all', 'domain_id:%(domain_id)s', 'project.id:%(project_id)s',
+          'system_scope:all', 'system.all:True', 'system:all', 'name:%(bad', 'domain_id:%(domain_id)s', 'project.id:%(project_id)s',
           'user.domain.id:default', "'x':%(nested.key)s", 'True:%(flag)s', '@', '!', 'rule:admin_required', 'rule:owner', 'rule:nope']
 
 
@@ -156,6 +156,17 @@ def run(ctx, rep):
                 if tgt != want_tgt:
                     rep.fail(key + '|target', 'oslopolicy-checker evaluates against target %r; the files say %r (target file %r)'
                              % (tgt, want_tgt, tfile), {'rules': rules, 'token': tok, 'target_file': tfile})
+            # the credentials derived from the token file and the command line
+            for (k, tgt, creds) in calls[:1]:
+                want_creds = {'roles': [r['name'] for r in tok['roles']], 'user_id': tok['user']['id'], 'is_admin': is_admin}
+                if tok.get('project'):
+                    want_creds['project_id'] = tok['project']['id']
+                if tok.get('system'):
+                    want_creds['system_scope'] = 'all'
+                got_creds = {f: creds.get(f) for f in want_creds}
+                if got_creds != want_creds:
+                    rep.fail(key + '|creds', 'oslopolicy-checker evaluates with credentials %r; the token and options say %r'
+                             % (got_creds, want_creds), {'rules': rules, 'token': tok, 'is_admin': is_admin})
             rep.stat('target_file:' + ('none' if tfile is None else 'empty' if not _flat(tfile) else 'given'))
             # what the library would decide for the credentials and target the tool derived
             enf = policy.Enforcer(impl.new_conf(), use_conf=False, default_rule='default')
